@@ -247,7 +247,7 @@ func (c *Ctx) Finish(verifDir string, seed int, explanation string, configs []st
 		fmt.Println(l)
 	}
 	// samples: a few obligations of each rule, violated ones first
-	var samples []any
+	samples := []any{}
 	seenRule := map[string]int{}
 	for _, o := range c.Obls {
 		if o.Status != Discharged || seenRule[o.Rule] < 3 {
